@@ -50,6 +50,7 @@ type World struct {
 	fnDecl    map[*ssa.Function]ast.Node
 	memo      map[string]interface{}
 
+	sigSubst     map[*ssa.Parameter]ssa.Value // C16-T: parameters of a template helper standing for the call's arguments
 	escFuncParam ssa.Value // set while a shared sanitiser helper is examined: the parameter that holds the escape lookup
 }
 
